@@ -120,6 +120,32 @@ def pair_cases(tier, seed, shard, nshards):
             i += 1
 
 
+BUDGET_WRAPS = ('IFT', 'IFELSE_T', 'IFELSE_F2', 'TRY', 'EXCEPT', 'LOOP1', 'FUNC', 'EVAL')
+
+
+def budget_case(ctx, case):
+    """k calls at top level, then one more inside each construct kind (and inside two nested ones), under a small call-stack limit:
+    the call accounting is one and the same at every nesting level"""
+    from props.c01 import wrap
+    limit, k, kinds = case
+    inner = (('CALL0',),)
+    for kd in reversed(kinds):
+        inner = (wrap(kd, inner),)
+    p = (('DEF0', (('M',),)),) + (('CALL0',),) * k + inner + (('M',),)
+    code = spaces.render(p)
+    r = compare(code, limits=(1024, 1024, limit))
+    ctx.ran(2 if r.verdict != "unspec" else 1)
+    ctx.state((code, limit))
+    ctx.trans(k + len(kinds) + 2)
+    if r.verdict == 'agree':
+        ctx.outcome('agree:' + r.why)
+    elif r.verdict == 'unspec':
+        ctx.unspec(r.why)
+    else:
+        ctx.violation({'space': 'CTRL call budget', 'why': r.why, 'inside': '>'.join(kinds) or 'top'},
+                      f'call-stack limit {limit}, {k} top-level calls, then a call inside {kinds}: {r.detail}')
+
+
 def flag_cases(tier, seed, shard, nshards):
     """every cache-writing instruction (two typed cases each) after UNSET_FLAG of every one and every two of the integer flags:
     exactly the documented cache entries are withheld"""
@@ -164,6 +190,10 @@ def blocks(tier, seed):
     ]
     bl.append(Block('STEP_pairs_shared_cache', lambda s, n: pair_cases(tier, seed, s, n), step_case,
                     'cache-writing crypto / contract instruction followed by every typed crypto case, in one script', nshards=128))
+    bcases = [(lim, k, kinds) for lim in (1, 2, 3, 5) for k in range(0, lim + 2)
+              for kinds in [()] + [(a,) for a in BUDGET_WRAPS] + [(a, b) for a in BUDGET_WRAPS for b in BUDGET_WRAPS]]
+    bl.append(Block('CTRL_call_budget', bcases, budget_case,
+                    'call-stack limit {1,2,3,5} x 0..limit+1 top-level calls x one more call inside every construct kind / pair of kinds', nshards=32))
     bl.append(Block('STEP_flag_subsets', lambda s, n: flag_cases(tier, seed, s, n), step_case,
                     'cache-writing crypto / contract instruction after UNSET_FLAG of every one and every two of the 11 integer flags', nshards=32))
     return bl
